@@ -94,6 +94,10 @@ class Gen:
             rhs = self.int_expr(scope, outer, d - 1)
             if op == "%" and self.f["mod"] == "const":
                 rhs = ("ci", r.choice([1, 2, 3]))
+            if op == "/" and not self.f["const_pred"] and not has_col(rhs):
+                # a constant divisor is never (an expression folding to) zero: `x / 0` folds to an
+                # untyped NULL that later operators reject (known finding F27)
+                rhs = ("ci", r.choice([1, 2, 3]))
             return ("bin", op, self.int_expr(scope, outer, d - 1), rhs, INT)
         if p < 0.9 and self.f["case"]:
             return ("case", self.bool_expr(scope, outer, d - 1), self.int_expr(scope, outer, d - 1),
